@@ -18,6 +18,7 @@ What is a site (one row per syntactic occurrence):
   py-global         random.<f>(...) with `random` the stdlib module               pythonGlobal
   rvs-unseeded      <expr>.rvs(...) without random_state                          scipyGlobal
   rvs-seeded        <expr>.rvs(..., random_state=<expr>)                          seeded
+                    (also gaussian_kde's <expr>.resample(n[, seed]): rvs-unseeded / rvs-seeded)
   crs-none          check_random_state(None) / check_random_state()               numpyGlobal
   crs               check_random_state(<expr>)                                    seeded
   rng-param-omitted call of a scanned function/method that HAS a random_state /   numpyGlobal
@@ -424,6 +425,14 @@ class _FileScan(ast.NodeVisitor):
                 else:
                     self.add(node, "rvs-seeded", "seeded", f"random_state={_txt(rs, 40)}" + self._param_note(rs))
                 handled_rng_param = True
+            elif name == "resample" and not has_star:
+                # scipy.stats.gaussian_kde.resample(size=None, seed=None): without a seed it draws from NumPy's global generator
+                sd = self._kw(node, "seed") or (node.args[1] if len(node.args) >= 2 else None)
+                if sd is None or (isinstance(sd, ast.Constant) and sd.value is None):
+                    self.add(node, "rvs-unseeded", "numpyGlobal", ".resample without seed draws from NumPy's process-global generator")
+                else:
+                    self.add(node, "rvs-seeded", "seeded", f"seed={_txt(sd, 40)}" + self._param_note(sd))
+                handled_rng_param = True
             elif name in CLOCK_FUNCS and d_recv in self.time_aliases:
                 self.add(node, "clock", "clock", f"time.{name}")
             elif name in DATETIME_FUNCS and d_recv in self.datetime_names:
@@ -656,6 +665,9 @@ REACH_RULES = [
          why="guarded by `self._sample_max_size > 0`; sample_max_size defaults to -1 and no search class passes it "
              "(guard: the string sample_max_size occurs nowhere under hpo/)",
          guard=lambda src: _no_text(src, ["hpo/*.py"], r"sample_max_size")),
+    dict(name="kde-prior-sampling", file="skopt/space/space.py", func="Real.rvs", kind="rvs-*", text=r"\.resample\(",
+         reach="live", conds=[("search", ["CBO"]), ("update_prior", [True])],
+         why="Real._kde only exists after Space.update_prior, which Optimizer._tell calls only for CBO(update_prior=True)"),
     dict(name="regevo-active-names", file="hpo/_regevo.py", func="RegularizedEvolution._ask", kind="set-order",
          reach="live", conds=[("search", ["REGEVO"])],
          why="mutation step of RegularizedEvolution once the population is full"),
@@ -731,6 +743,7 @@ REACH_RULES = [
              "(guard: that entry is still in _cbo.py)",
          guard=lambda src: _has_text(src, "hpo/_cbo.py", r"_opt_kwargs = dict\(.*?random_state=self\._random_state")),
     dict(name="cbo-forest-kwargs", file="hpo/_cbo.py", func="CBO._get_surrogate_model", kind="rng-param-kwargs",
+         text=r"\*\*defau(lt_surrogate_model_kwargs|\.\.\.)",  # the source text of a row is cut after 90 characters
          reach="noFlow", stream="seeded",
          why="surrogate constructors receive **default_surrogate_model_kwargs which contains random_state=random_state, itself "
              "self._random_state.randint(...) at the only call (guard: both still present)",
